@@ -162,7 +162,9 @@ func check(c Case) (o ev.Outcome) {
 		o.Class("one-module-fetched-from-search-path")
 	}
 	var obs *schema.Observed
-	if !ev.Guard(&o, "load+process", func() { obs = schema.LoadFetched(srcs, c.Fetch, func(ms *yang.Modules) { ms.ParseOptions.StoreUses = c.StoreUses }) }) {
+	if !ev.Guard(&o, "load+process", func() {
+		obs = schema.LoadFetched(srcs, c.Fetch, func(ms *yang.Modules) { ms.ParseOptions.StoreUses = c.StoreUses })
+	}) {
 		// crashes belong to C01; keep the signature distinct
 		for i := range o.Violations {
 			o.Violations[i].Sig = "C04/" + o.Violations[i].Sig
